@@ -667,7 +667,7 @@ func c11TargetedStore(r *ev.Run) {
 	ctl.install()
 	defer ctl.uninstall()
 	own := &ownership{owners: map[any]string{}, tmpl: map[any]bool{}}
-	points := []string{"memq.add.picked", "memtable.add.prelock", "flush.registered", "flush.dropped", "search.listed-memtables", "search.listed-segments", "crash:flush.added"}
+	points := []string{"memq.add.picked", "memtable.add.prelock", "flush.registered", "flush.dropped", "search.listed-memtables", "search.listed-segments", "crash:flush.added", "memq.list", "segmgr.list"}
 	actions := []string{"add", "add-forcing-rotation", "search-all", "flush", "remove-newest"}
 	reps := r.Pick(1, 5)
 	total := reps * len(points) * len(actions)
